@@ -745,6 +745,7 @@ func (g *argvGen) emitCluster() {
 	t := g.t
 	var fl []*OptInfo
 	var argt []*OptInfo
+	var optl []*OptInfo // options with an optional argument: inside a cluster they take their optional value
 	for _, o := range g.scopeOpts() {
 		if o.Short == "" || g.r.sc.short[o.Short] != o {
 			continue
@@ -753,6 +754,8 @@ func (g *argvGen) emitCluster() {
 			fl = append(fl, o)
 		} else if !o.IsOptional() {
 			argt = append(argt, o)
+		} else if len(o.OptVals) > 0 {
+			optl = append(optl, o)
 		}
 	}
 	if len(fl) == 0 {
@@ -762,6 +765,9 @@ func (g *argvGen) emitCluster() {
 	s := "-"
 	for i := 0; i < n; i++ {
 		o := rapid.SampledFrom(fl).Draw(t, "clusterFlag")
+		if i > 0 && len(optl) > 0 && pct(t, "clusterOptional", 25) {
+			o = rapid.SampledFrom(optl).Draw(t, "clusterOptionalOpt")
+		}
 		s += o.Short
 		g.used = append(g.used, o)
 	}
